@@ -249,16 +249,18 @@ def hygiene(ctx):
     files = list(dict.fromkeys(files))
     if not files:
         return
-    arg_binding(ctx, "G", files)
-    late_binding(ctx, "G", files)
-    single_pass(ctx, "G", files)
-    format_templates(ctx, "G", files)
-    no_shared_default_writes(ctx, "G", files, allow=set(REGISTRIES))
-    yielded_then_mutated(ctx, "G", files)
-    memo_keys(ctx, "G", files)
-    child_status(ctx, "G", files)
-    classic_slips(ctx, "G", files)
-    partial_bound_writes(ctx, "G", files)
+    # each analysis runs on its own: a crash in one (source it was not written for) must not hide what the others report
+    from .report import AnalysisError
+    crashed = []
+    for f, kw in ((arg_binding, {}), (late_binding, {}), (single_pass, {}), (format_templates, {}), (no_shared_default_writes, {"allow": set(REGISTRIES)}),
+                  (yielded_then_mutated, {}), (memo_keys, {}), (child_status, {}), (classic_slips, {}), (partial_bound_writes, {})):
+        try:
+            f(ctx, "G", files, **kw)
+        except AnalysisError:
+            raise
+        except Exception as e:  # noqa: BLE001
+            crashed.append(f"{f.__name__}: {type(e).__name__}: {e}")
+    ctx.require(not crashed, "generic pack: " + "; ".join(crashed))
 
 
 def publication(ctx, rule, modname, qual, live, what):
